@@ -25,6 +25,7 @@ DOC = {
         "evaluation that follows the last write of the parameters."
     ),
     "rules": {
+        "C13-R7": "accumulators of an evaluation (clp penalties, per-index results) are reset exactly once per evaluation - before the first accumulation and not once per dataset - so cost, chi-square, number_of_residuals and additional_penalty contain the penalties of all datasets (shared with C10-R5)",
         "C13-R6": "every evaluation (scipy's `fun`, the re-evaluation for `cost`, the result datasets) sees expression parameters at their exact fixed point, evaluated on the working copy itself (shared with C12-R2, C12-R4)",
         "C13-R5": "the matrices that are fitted (and whose columns number_of_clps counts) are the reduced ones: relations, then constraints, then the weight applied to the reduced matrix (shared with C02-R2)",
         "C13-R1": "residuals = fun.size, free parameters = x.size, dof = residuals - free - clps, chi2 = sum(fun**2), reduced = chi2/dof, rmse = sqrt(reduced), cost = 1/2 p.p with p re-evaluated at the optimum; per-dataset rmse = sqrt(sum(res**2)/(n_model*n_global)), weighted likewise",
@@ -321,9 +322,16 @@ def r6(ctx) -> None:
     c12.r4(ctx, rule="C13-R6")
 
 
+def r7(ctx) -> None:
+    """Every penalty of the evaluation is in the residual vector the statistics are computed from (shared with C10-R5)."""
+    from glint.rules import c10
+
+    c10.r5(ctx, rule="C13-R7")
+
+
 def check(ctx) -> None:
     for g in check.groups:
         g(ctx)
 
 
-check.groups = [r1, r2, r3, r4, r5, r6]
+check.groups = [r1, r2, r3, r4, r5, r6, r7]
